@@ -10,7 +10,7 @@ Transcription of the *integer* part of
 * `LeakyQuantizer` / `LeakilyQuantizedDistribution` (`quantize.rs`): `new`, `slack`,
   `left_cumulative_and_probability`, `quantile_function` (the search), the symbol-table iterator,
 
-all **after** the repairs D1, D4, D10, D14, D16 (see DESIGN §7 and the final report of component
+all **after** the repairs D1, D4, D10, D14, D16, D25, D26 (see DESIGN §7 and the final report of component
 `quant`).  IEEE arithmetic is an external call here: the float pipeline enters only through the
 integer sequences it produces,
 
@@ -329,7 +329,8 @@ def LQ.up (m : LQ) (gl gr : Ext) (q : Nat) :
           | .ok (symbol, step) => m.up gl gr q fuel symbol step left false
 
 /-- `DecoderModel::quantile_function`; `hint` = `inner.inverse(..).as_()` (already a `Symbol`).
-    Returns `(symbol, left_cumulative, probability)`. -/
+    Returns `(symbol, left_cumulative, probability)`.  After D26 the final conversion is the
+    checked `into_nonzero().expect(..)`: no unsafe precondition is left in `quantize.rs`. -/
 def LQ.dec (m : LQ) (gl gr : Ext) (fuel : Nat) (hint : Int) (q : Nat) : SM (Int × Nat × Nat) :=
   let maxProb := (2 ^ m.B - 1) >>> (m.B - m.P)
   if ¬ (q ≤ maxProb) then .error (.fault (.panic "quant.dec.assert"))
@@ -350,9 +351,10 @@ def LQ.dec (m : LQ) (gl gr : Ext) (fuel : Nat) (hint : Int) (q : Nat) : SM (Int 
       | .error e => .error e
       | .ok (s, l, right) =>
         let p := wsub m.B right l
-        if p = 0 then .error (.fault (.ub "quant.dec.nonzero")) else .ok (s, l, p)
+        if p = 0 then .error (.fault (.panic "quant.dec.expect")) else .ok (s, l, p)
 
-/-- the symbol-table iterator (after D1: the CDF is evaluated at `next_symbol - 0.5`);
+/-- the symbol-table iterator (after D1: the CDF is evaluated at `next_symbol - 0.5`; after D25:
+    the probability is converted with the checked `into_nonzero().expect(..)`);
     `fuel` bounds the number of symbols -/
 def LQ.table (m : LQ) (gl : Ext) : (fuel : Nat) → (symbol : Int) → (left : Nat) →
     SM (List (Int × Nat × Nat))
@@ -361,7 +363,7 @@ def LQ.table (m : LQ) (gl : Ext) : (fuel : Nat) → (symbol : Int) → (left : N
     if symbol = m.max then
       let right := wrappingPow2 m.B m.P
       let p := wsub m.B right left
-      if p = 0 then .error (.fault (.ub "quant.table.nonzero")) else .ok [(symbol, left, p)]
+      if p = 0 then .error (.fault (.panic "quant.table.expect")) else .ok [(symbol, left, p)]
     else
       match liftM (m.t.cadd "quant.table.next" symbol 1) with
       | .error e => .error e
@@ -370,7 +372,7 @@ def LQ.table (m : LQ) (gl : Ext) : (fuel : Nat) → (symbol : Int) → (left : N
         | .error e => .error e
         | .ok right =>
           let p := wsub m.B right left
-          if p = 0 then .error (.fault (.ub "quant.table.nonzero"))
+          if p = 0 then .error (.fault (.panic "quant.table.expect"))
           else match m.table gl fuel next right with
             | .error e => .error e
             | .ok rest => .ok ((symbol, left, p) :: rest)
